@@ -106,11 +106,20 @@ where
     O: VectorObserver<u32>,
     O::Stream: Stream<Item = I> + 'static,
 {
-    match st1.kind.as_str() {
-        "head" => attach_one(obs.dynamic_head(ls1), st2, ls2),
-        "tail" => attach_one(obs.dynamic_tail(ls1), st2, ls2),
-        "skip" => attach_one(obs.dynamic_skip(ls1), st2, ls2),
-        _ => panic!("only dynamic head/tail/skip can be handed over by themselves"),
+    // the adapter itself (for the static / dynamic-with-initial-value flavours: the `.1` half of the
+    // returned pair) is the observer of the next stage
+    let arg = || st1.arg.parse::<usize>().unwrap();
+    match (st1.kind.as_str(), st1.flav.as_str()) {
+        ("head", "dynamic") => attach_one(obs.dynamic_head(ls1), st2, ls2),
+        ("head", "dyninit") => attach_one(obs.dynamic_head_with_initial_value(arg(), ls1).1, st2, ls2),
+        ("head", "static") => attach_one(obs.head(arg()).1, st2, ls2),
+        ("tail", "dynamic") => attach_one(obs.dynamic_tail(ls1), st2, ls2),
+        ("tail", "dyninit") => attach_one(obs.dynamic_tail_with_initial_value(arg(), ls1).1, st2, ls2),
+        ("tail", "static") => attach_one(obs.tail(arg()).1, st2, ls2),
+        ("skip", "dynamic") => attach_one(obs.dynamic_skip(ls1), st2, ls2),
+        ("skip", "dyninit") => attach_one(obs.dynamic_skip_with_initial_count(arg(), ls1).1, st2, ls2),
+        ("skip", "static") => attach_one(obs.skip(arg()).1, st2, ls2),
+        _ => panic!("only head/tail/skip can be handed over by themselves"),
     }
 }
 
